@@ -172,7 +172,7 @@ impl Div<TimeDelta> for TimeDelta {
 impl Add<TimeDelta> for Time {
     type Output = Time;
     fn add(self, rhs: TimeDelta) -> Self::Output {
-        if rhs.is_not_nat() {
+        if self.is_not_nat() && rhs.is_not_nat() {
             if rhs.months != 0 {
                 panic!("not support add TimeDelta with months");
             }
@@ -188,7 +188,7 @@ impl Add<TimeDelta> for Time {
 impl Sub<TimeDelta> for Time {
     type Output = Time;
     fn sub(self, rhs: TimeDelta) -> Self::Output {
-        if rhs.is_not_nat() {
+        if self.is_not_nat() && rhs.is_not_nat() {
             if rhs.months != 0 {
                 panic!("not support sub TimeDelta with months");
             }
